@@ -45,11 +45,13 @@ type Violation struct {
 	Count     int
 	Stack     string
 	Alts      []AltModel // further models of the same violated obligation from other paths
+	UF        int        // uninterpreted semantic library functions on the path of Model
 }
 
 type AltModel struct {
 	Model   map[string]string
 	Choices []ChoiceRec
+	UF      int
 }
 
 func (v *Violation) Key() string { return v.Class + "|" + v.Label + "|" + v.Site }
@@ -229,13 +231,45 @@ func (r *Run) obligation(class, label, site, status string, model map[string]*Te
 		if v == nil {
 			v = &Violation{Harness: r.harness, Class: class, Label: label, Site: site,
 				Model: modelStrings(model, ex), Choices: append([]ChoiceRec{}, ex.choices...),
-				Decisions: append([]int{}, ex.trace...), Stack: ex.where()}
+				Decisions: append([]int{}, ex.trace...), Stack: ex.where(), UF: ex.ufUse}
 			if debugTrace {
 				v.Stack += "\n        " + strings.Join(ex.dlog, "\n        ")
 			}
 			r.violations[key] = v
-		} else if len(v.Alts) < 6 {
-			v.Alts = append(v.Alts, AltModel{Model: modelStrings(model, ex), Choices: append([]ChoiceRec{}, ex.choices...)})
+		} else {
+			// keep further models: first those from paths that left fewer semantic library functions
+			// uninterpreted (a concrete candidate pool realises what a free function symbol may not), then
+			// paths with a different vector of case-split choices
+			am := AltModel{Model: modelStrings(model, ex), Choices: append([]ChoiceRec{}, ex.choices...), UF: ex.ufUse}
+			if am.UF < v.UF {
+				// promote: the more concrete model becomes the primary one
+				old := AltModel{Model: v.Model, Choices: v.Choices, UF: v.UF}
+				v.Model, v.Choices, v.UF = am.Model, am.Choices, am.UF
+				v.Decisions = append([]int{}, ex.trace...)
+				v.Stack = ex.where()
+				am = old
+			}
+			cs := fmt.Sprint(am.Choices)
+			same := 0
+			for _, a := range v.Alts {
+				if fmt.Sprint(a.Choices) == cs {
+					same++
+				}
+			}
+			if len(v.Alts) < 24 && (same == 0 || (same < 2 && len(v.Alts) < 8)) {
+				v.Alts = append(v.Alts, am)
+			} else if same == 0 {
+				// full: replace the least concrete alternative if this one is more concrete
+				worst := 0
+				for i, a := range v.Alts {
+					if a.UF > v.Alts[worst].UF {
+						worst = i
+					}
+				}
+				if am.UF < v.Alts[worst].UF {
+					v.Alts[worst] = am
+				}
+			}
 		}
 		v.Count++
 	}
